@@ -32,10 +32,37 @@ use serde_json::value::RawValue;
 use tokio::sync::{mpsc, oneshot};
 use tokio_util::compat::{Compat, TokioAsyncReadCompatExt};
 
-pub const NMETH: usize = 2;
-pub const SUB_NAMES: [&str; NMETH] = ["subA", "subB"];
-pub const NOTIF_NAMES: [&str; NMETH] = ["nA", "nB"];
-pub const UNSUB_NAMES: [&str; NMETH] = ["unsubA", "unsubB"];
+/// Three subscription methods: A and B are `register_subscription` (async handler, closing
+/// notification), C is `register_subscription_raw` (sync callback, no handler future, no closing
+/// notification) and its notification name EQUALS its subscribe name.  Every subscribe and
+/// unsubscribe method also has an alias (`register_alias`), and an ordinary method `echo` and an
+/// ordinary method whose name extends a subscribe name (`subA_info`) live in the same module.
+pub const NMETH: usize = 3;
+pub const SUB_NAMES: [&str; NMETH] = ["subA", "subB", "subC"];
+pub const NOTIF_NAMES: [&str; NMETH] = ["nA", "nB", "subC"];
+pub const UNSUB_NAMES: [&str; NMETH] = ["unsubA", "unsubB", "unsubC"];
+pub const SUB_ALIASES: [&str; NMETH] = ["al_subA", "subscribe_b", "subC2"];
+pub const UNSUB_ALIASES: [&str; NMETH] = ["al_unsubA", "unsubscribe_b", "unsubC2"];
+/// methods registered with `register_subscription_raw`
+pub fn raw_meth(m: usize) -> bool {
+	m >= 2
+}
+
+/// what a scripted handler returns — through every `IntoSubscriptionCloseResponse` impl of the library
+pub enum HRet {
+	Unit,
+	Res(Result<(), jsonrpsee_core::SubscriptionError>),
+	Plain(SubscriptionCloseResponse),
+}
+impl jsonrpsee_server::IntoSubscriptionCloseResponse for HRet {
+	fn into_response(self) -> SubscriptionCloseResponse {
+		match self {
+			HRet::Unit => ().into_response(),
+			HRet::Res(r) => r.into_response(),
+			HRet::Plain(p) => p.into_response(),
+		}
+	}
+}
 
 /// Scripted subscription ids (one provider per server, as `ServerConfig::id_provider`): the id the
 /// next admitted subscribe call gets is preset by the script (`ss sub c m rid <sid>`), so a case can
@@ -131,24 +158,55 @@ pub fn err_msg(e: u64) -> String {
 pub fn build_module(shared: Arc<Shared>) -> RpcModule<Arc<Shared>> {
 	let mut module = RpcModule::new(shared);
 	for m in 0..NMETH {
-		module
-			.register_subscription(SUB_NAMES[m], NOTIF_NAMES[m], UNSUB_NAMES[m], move |_params, pending, ctx, _ext| async move {
-				let (ret_tx, ret_rx) = oneshot::channel::<Ret>();
-				let gone = Arc::new(Mutex::new(false));
-				let _guard = GoneGuard(gone.clone());
-				let sid = sid_token(&pending.subscription_id());
-				let conn = pending.connection_id().0;
-				ctx.handovers.lock().unwrap().push(Handover { conn, sid, meth: m, pending: Some(pending), ret_tx: Some(ret_tx), gone });
-				match ret_rx.await {
-					Ok(Ret::None) | Err(_) => SubscriptionCloseResponse::None,
-					Ok(Ret::Notif(p)) => {
-						SubscriptionCloseResponse::Notif(SubscriptionMessage::from(serde_json::value::to_raw_value(&p).unwrap()))
+		if raw_meth(m) {
+			module
+				.register_subscription_raw(SUB_NAMES[m], NOTIF_NAMES[m], UNSUB_NAMES[m], move |_params, pending, ctx, _ext| {
+					let sid = sid_token(&pending.subscription_id());
+					let conn = pending.connection_id().0;
+					// no handler future: "returned" from the start
+					ctx.handovers.lock().unwrap().push(Handover { conn, sid, meth: m, pending: Some(pending), ret_tx: None, gone: Arc::new(Mutex::new(true)) });
+				})
+				.unwrap();
+		} else {
+			module
+				.register_subscription(SUB_NAMES[m], NOTIF_NAMES[m], UNSUB_NAMES[m], move |_params, pending, ctx, _ext| async move {
+					let (ret_tx, ret_rx) = oneshot::channel::<Ret>();
+					let gone = Arc::new(Mutex::new(false));
+					let _guard = GoneGuard(gone.clone());
+					let sid = sid_token(&pending.subscription_id());
+					let conn = pending.connection_id().0;
+					ctx.handovers.lock().unwrap().push(Handover { conn, sid, meth: m, pending: Some(pending), ret_tx: Some(ret_tx), gone });
+					// the closing value goes through all three `IntoSubscriptionCloseResponse` impls
+					// (`()`, `Result<(), SubscriptionError>`, `SubscriptionCloseResponse`), picked by its parity
+					match ret_rx.await {
+						Err(_) => HRet::Unit,
+						Ok(Ret::None) => {
+							if m == 0 {
+								HRet::Unit
+							} else {
+								HRet::Res(Ok(()))
+							}
+						}
+						Ok(Ret::Notif(p)) => {
+							HRet::Plain(SubscriptionCloseResponse::Notif(SubscriptionMessage::from(serde_json::value::to_raw_value(&p).unwrap())))
+						}
+						Ok(Ret::Err(e)) => {
+							if e % 2 == 0 {
+								HRet::Res(Err(err_msg(e).into()))
+							} else {
+								HRet::Plain(SubscriptionCloseResponse::NotifErr(err_msg(e).into()))
+							}
+						}
 					}
-					Ok(Ret::Err(e)) => SubscriptionCloseResponse::NotifErr(err_msg(e).into()),
-				}
-			})
-			.unwrap();
+				})
+				.unwrap();
+		}
+		module.register_alias(SUB_ALIASES[m], SUB_NAMES[m]).unwrap();
+		module.register_alias(UNSUB_ALIASES[m], UNSUB_NAMES[m]).unwrap();
 	}
+	module.register_method("echo", |params, _, _| params.one::<u64>().unwrap_or(0)).unwrap();
+	module.register_method("subA_info", |_, _, _| 1u64).unwrap();
+	module.register_alias("unsubA_all", "echo").unwrap();
 	module
 }
 
@@ -202,7 +260,7 @@ fn server_cfg(cap: u32, qcap: u32, ids: Arc<CounterIds>) -> ServerConfig {
 
 impl Env {
 	/// `eager`: nconns real connections; `manual`: nconns harness-owned queues of capacity `qcap`
-	pub async fn new(eager: bool, nconns: usize, cap: u32, qcap: u32) -> Env {
+	pub async fn new(eager: bool, lowlevel: bool, nconns: usize, cap: u32, qcap: u32) -> Env {
 		let shared = Arc::new(Shared::default());
 		let ids = Arc::new(CounterIds::default());
 		let module = build_module(shared.clone());
@@ -214,11 +272,36 @@ impl Env {
 				Server::builder().set_config(server_cfg(cap, qcap, ids)).set_rpc_middleware(RpcServiceBuilder::new()).to_service_builder();
 			for _ in 0..nconns {
 				let (client_io, server_io) = tokio::io::duplex(1 << 16);
-				let svc = builder.clone().build(methods.clone(), stop_handle.clone());
 				let stopped = stop_handle.clone().shutdown();
-				tokio::spawn(async move {
-					let _ = serve_with_graceful_shutdown(server_io, svc, stopped).await;
-				});
+				if lowlevel {
+					// the low-level assembly: the application calls `ws::connect` itself for the upgrade request
+					let cfg = server_cfg(cap, qcap, env.ids.clone());
+					let (m2, sh2) = (methods.clone(), stop_handle.clone());
+					let conn_id = env.conns.len() as u32;
+					let guard = jsonrpsee_server::ConnectionGuard::new(4);
+					let svc = tower::service_fn(move |req: jsonrpsee_server::HttpRequest<hyper::body::Incoming>| {
+						let (cfg, m2, sh2, guard) = (cfg.clone(), m2.clone(), sh2.clone(), guard.clone());
+						async move {
+							let permit = guard.try_acquire().expect("connection permit");
+							let conn = jsonrpsee_server::ConnectionState::new(sh2, conn_id, permit);
+							match jsonrpsee_server::ws::connect(req, cfg, m2, conn, RpcServiceBuilder::new()).await {
+								Ok((rp, conn_fut)) => {
+									tokio::spawn(conn_fut);
+									Ok::<_, std::convert::Infallible>(rp)
+								}
+								Err(rp) => Ok(rp),
+							}
+						}
+					});
+					tokio::spawn(async move {
+						let _ = serve_with_graceful_shutdown(server_io, svc, stopped).await;
+					});
+				} else {
+					let svc = builder.clone().build(methods.clone(), stop_handle.clone());
+					tokio::spawn(async move {
+						let _ = serve_with_graceful_shutdown(server_io, svc, stopped).await;
+					});
+				}
 				let mut client = soketto::handshake::Client::new(BufReader::new(BufWriter::new(client_io.compat())), "localhost", "/");
 				match client.handshake().await {
 					Ok(soketto::handshake::ServerResponse::Accepted { .. }) => {}
@@ -428,14 +511,41 @@ pub async fn run_step<T: Send + 'static>(fut: impl std::future::Future<Output = 
 	}
 }
 
+/// Wire spelling of a subscribe request, chosen by the request id (every script cycles through all
+/// of them): params missing / [] / null / {} / extra elements, the alias name, JSON escapes in member
+/// names and interior whitespace, the request id as a string.  The handlers ignore the params.
+pub const SUB_SPELLINGS: u64 = 8;
 pub fn sub_request(meth: usize, rid: u64) -> String {
-	format!("{{\"jsonrpc\":\"2.0\",\"id\":{rid},\"method\":\"{}\"}}", SUB_NAMES[meth])
+	let n = SUB_NAMES[meth];
+	match rid % SUB_SPELLINGS {
+		0 => format!("{{\"jsonrpc\":\"2.0\",\"id\":{rid},\"method\":\"{n}\"}}"),
+		1 => format!("{{\"jsonrpc\":\"2.0\",\"id\":{rid},\"method\":\"{n}\",\"params\":[]}}"),
+		2 => format!("{{\"jsonrpc\":\"2.0\",\"id\":{rid},\"method\":\"{n}\",\"params\":null}}"),
+		3 => format!("{{\"jsonrpc\":\"2.0\",\"id\":{rid},\"method\":\"{n}\",\"params\":{{}}}}"),
+		4 => format!("{{\"params\":[1,\"x\",{{\"a\":[2]}}],\"method\":\"{n}\",\"id\":{rid},\"jsonrpc\":\"2.0\"}}"),
+		5 => format!("{{\"jsonrpc\":\"2.0\",\"id\":{rid},\"method\":\"{}\"}}", SUB_ALIASES[meth]),
+		6 => format!(" {{ \"jsonrpc\" : \"2.0\" ,\n\t\"\\u0069d\" : {rid} , \"\\u006dethod\" : \"{n}\" , \"p\\u0061rams\" : [ ] }} "),
+		_ => format!("{{\"jsonrpc\":\"2.0\",\"id\":\"{rid}\",\"method\":\"{n}\"}}"),
+	}
 }
 /// `params`: the raw params text (`None` = member omitted)
+pub const UNSUB_SPELLINGS: u64 = 4;
 pub fn unsub_request(meth: usize, rid: u64, params: Option<&str>) -> String {
-	match params {
-		Some(p) => format!("{{\"jsonrpc\":\"2.0\",\"id\":{rid},\"method\":\"{}\",\"params\":{p}}}", UNSUB_NAMES[meth]),
-		None => format!("{{\"jsonrpc\":\"2.0\",\"id\":{rid},\"method\":\"{}\"}}", UNSUB_NAMES[meth]),
+	// spelling by request id: plain / alias / escapes + whitespace + member order / string request id
+	let name = if rid % UNSUB_SPELLINGS == 1 { UNSUB_ALIASES[meth] } else { UNSUB_NAMES[meth] };
+	let id = if rid % UNSUB_SPELLINGS == 3 { format!("\"{rid}\"") } else { rid.to_string() };
+	let ps = match params {
+		Some(p) => format!(",\"params\":{p}"),
+		None => String::new(),
+	};
+	if rid % UNSUB_SPELLINGS == 2 {
+		let ps = match params {
+			Some(p) => format!(" \"par\\u0061ms\" : {p} ,"),
+			None => String::new(),
+		};
+		format!("\n{{{ps} \"m\\u0065thod\" : \"{name}\" , \"id\" : {id} , \"jsonrpc\" : \"2.0\" }}")
+	} else {
+		format!("{{\"jsonrpc\":\"2.0\",\"id\":{id},\"method\":\"{name}\"{ps}}}")
 	}
 }
 
@@ -481,7 +591,12 @@ pub fn canon_frame(text: &str) -> String {
 		}
 		return raw();
 	}
-	let Some(rid) = o.get("id").and_then(|v| v.as_u64()) else { return raw() };
+	// (a request id sent as the string "107" comes back as that string)
+	let rid = match o.get("id") {
+		Some(Value::Number(n)) if n.is_u64() => n.as_u64().unwrap(),
+		Some(Value::String(t)) if t.parse::<u64>().map(|n| n.to_string() == *t).unwrap_or(false) => t.parse::<u64>().unwrap(),
+		_ => return raw(),
+	};
 	if o.len() != 3 {
 		return raw();
 	}
@@ -500,13 +615,19 @@ pub fn canon_frame(text: &str) -> String {
 	raw()
 }
 
+/// error objects of different shapes: with / without data, empty / long / escaped messages
 pub fn reject_error(code: i32) -> ErrorObjectOwned {
-	ErrorObjectOwned::owned(code, "rejected", None::<()>)
+	match code.rem_euclid(4) {
+		0 => ErrorObjectOwned::owned(code, "rejected", None::<()>),
+		1 => ErrorObjectOwned::owned(code, "", Some("data")),
+		2 => ErrorObjectOwned::owned(code, "re\"jected\n\u{1F600}", Some(vec![1, 2, 3])),
+		_ => ErrorObjectOwned::owned(code, "x".repeat(300), Some(serde_json::json!({"a": {"b": null}}))),
+	}
 }
 
 /// `<flavour><kind>`: s = send, t = send_timeout, y = try_send; c = Complete message, n = NeedsData
 pub fn send_how(w: &str) -> bool {
-	matches!(w, "sc" | "sn" | "tc" | "tn" | "yc" | "yn")
+	matches!(w, "sc" | "sn" | "tc" | "tn" | "zc" | "zn" | "uc" | "un" | "yc" | "yn")
 }
 
 pub fn data_msg(p: u64) -> SubscriptionMessage {
@@ -596,6 +717,8 @@ pub struct CaseRun {
 	pub check_c04: bool,
 	/// every frame seen per connection (canonical tokens), for the C04 oracle
 	pub streams: Vec<Vec<String>>,
+	/// sends left parked on a full queue (`ss parksend`), in parking order: (sub, payload, task)
+	pub parked: Vec<(usize, u64, tokio::task::JoinHandle<bool>)>,
 }
 
 pub struct LineResult {
@@ -605,20 +728,23 @@ pub struct LineResult {
 	pub kind: String,
 }
 
-pub fn parse_header(line: &str) -> Option<(bool, u32, u32, usize)> {
+pub fn parse_header(line: &str) -> Option<(bool, bool, u32, u32, usize)> {
 	let w: Vec<&str> = line.split_whitespace().collect();
 	if w.len() != 7 || w[0] != "case" || w[2] != "subs" {
 		return None;
 	}
-	let eager = match w[3] {
-		"mode=eager" => true,
-		"mode=manual" => false,
+	// eager = the TowerService a `Server` builds per socket; lowlevel = the application-side
+	// `ws::connect` assembly (both real transports); manual = harness-owned bounded queue
+	let (eager, lowlevel) = match w[3] {
+		"mode=eager" => (true, false),
+		"mode=lowlevel" => (true, true),
+		"mode=manual" => (false, false),
 		_ => return None,
 	};
 	let cap = w[4].strip_prefix("cap=")?.parse().ok()?;
 	let qcap = w[5].strip_prefix("qcap=")?.parse().ok()?;
 	let conns = w[6].strip_prefix("conns=")?.parse().ok()?;
-	Some((eager, cap, qcap, conns))
+	Some((eager, lowlevel, cap, qcap, conns))
 }
 
 pub fn parse_ret(w: &str) -> Option<Ret> {
@@ -646,10 +772,10 @@ fn oracle_merge(acc: &mut Result<(), String>, r: Result<(), String>) {
 
 impl CaseRun {
 	pub async fn new(header: &str, check_c06: bool, check_c04: bool) -> Option<CaseRun> {
-		let (eager, cap, qcap, nconns) = parse_header(header)?;
-		let env = Env::new(eager, nconns, cap, qcap).await;
+		let (eager, lowlevel, cap, qcap, nconns) = parse_header(header)?;
+		let env = Env::new(eager, lowlevel, nconns, cap, qcap).await;
 		let book = Book { subs: vec![], peer_closed: vec![false; nconns], stopped: false, cap };
-		Some(CaseRun { env, subs: vec![], book, eager, nconns, check_c06, check_c04, streams: vec![vec![]; nconns] })
+		Some(CaseRun { env, subs: vec![], book, eager, nconns, check_c06, check_c04, streams: vec![vec![]; nconns], parked: vec![] })
 	}
 
 	fn conn_serving(&self, c: usize) -> bool {
@@ -684,6 +810,37 @@ impl CaseRun {
 			self.subs.push(SubCtl::from_handover(h));
 		}
 		new
+	}
+
+	/// parked sends that completed since the last line, in parking order: `sub:payload:ok|err`
+	async fn collect_parked(&mut self, orc: &mut Result<(), String>) -> Vec<String> {
+		let mut done = vec![];
+		let mut still = vec![];
+		let parked: Vec<_> = self.parked.drain(..).collect();
+		for (k, p, h) in parked {
+			if !h.is_finished() {
+				still.push((k, p, h));
+				continue;
+			}
+			let ok = h.await.unwrap_or(false);
+			// the blocked call has returned: its handle of the sink is gone
+			let serving = self.conn_serving(self.book.subs[k].conn);
+			let b = &mut self.book.subs[k];
+			if b.clones > 1 && !b.unsub {
+				b.nonlast_drop = true;
+			}
+			b.clones -= 1;
+			if ok {
+				b.sent_ok.push(p);
+			} else if serving {
+				// a send that started while the subscription was active and waited for room may only fail
+				// because the connection went away
+				oracle_merge(orc, Err(format!("parked send {p} on sub {} failed although connection {} is still open", b.sid, b.conn)));
+			}
+			done.push(format!("{k}:{p}:{}", if ok { "ok" } else { "err" }));
+		}
+		self.parked = still;
+		done
 	}
 
 	/// frames that arrived since the last line + the C04 stream oracle on them
@@ -786,7 +943,7 @@ impl CaseRun {
 		} else {
 			let c = self.subs[k].conn;
 			let serving_before = self.conn_serving(c);
-			let blocked = !self.eager && !self.env.closed(c) && self.subs[k].pending.as_ref().unwrap().capacity() == 0;
+			let blocked = !self.env.closed(c) && self.subs[k].pending.as_ref().unwrap().capacity() == 0;
 			if blocked {
 				"blocked".into()
 			} else {
@@ -838,7 +995,7 @@ impl CaseRun {
 			let expect = self.expect_active(k);
 			let meth = self.subs[k].meth;
 			let sink = self.subs[k].sinks.last_mut().unwrap();
-			if !self.eager && !sink.is_closed() && sink.capacity() == 0 {
+			if !sink.is_closed() && sink.capacity() == 0 {
 				"blocked".into()
 			} else {
 				// message kind: `c` = already serialised (`SubscriptionMessage::new`, the sink must still
@@ -850,7 +1007,15 @@ impl CaseRun {
 				};
 				// flavour: send / send_timeout / try_send (never parks: room was checked above)
 				let r: Result<Result<(), ()>, ()> = match how.as_bytes()[0] {
-					b't' => tokio::time::timeout(Duration::from_millis(1), sink.send_timeout(msg, Duration::from_secs(3600))).await.map(|r| r.map_err(|_| ())).map_err(|_| ()),
+					b't' | b'z' | b'u' => {
+						// send_timeout with a long / zero / 1µs timeout: with room in the queue all of them succeed
+						let d = match how.as_bytes()[0] {
+							b'z' => Duration::ZERO,
+							b'u' => Duration::from_micros(1),
+							_ => Duration::from_secs(3600),
+						};
+						tokio::time::timeout(Duration::from_millis(1), sink.send_timeout(msg, d)).await.map(|r| r.map_err(|_| ())).map_err(|_| ())
+					}
 					b'y' => Ok(sink.try_send(msg).map_err(|_| ())),
 					_ => tokio::time::timeout(Duration::from_millis(1), sink.send(msg)).await.map(|r| r.map_err(|_| ())).map_err(|_| ()),
 				};
@@ -1012,7 +1177,7 @@ impl CaseRun {
 					"bad".into()
 				} else {
 					let c = self.subs[k].conn;
-					let blocked = !self.eager && !self.env.closed(c) && self.subs[k].pending.as_ref().unwrap().capacity() == 0;
+					let blocked = !self.env.closed(c) && self.subs[k].pending.as_ref().unwrap().capacity() == 0;
 					if blocked {
 						"blocked".into()
 					} else {
@@ -1038,6 +1203,76 @@ impl CaseRun {
 			"send" => {
 				let (Some(k), Some(p), Some(how)) = (num(2), num(3), w.get(4).copied().filter(|h| send_how(h))) else { return bad("bad-op") };
 				self.op_send(k as usize, p, how, &mut orc, true).await
+			}
+			// a send that is left PARKED if the queue is full: the blocked call keeps a handle of the sink
+			"parksend" => {
+				let (Some(k), Some(p), Some(how)) = (num(2), num(3), w.get(4).copied().filter(|h| send_how(h))) else { return bad("bad-op") };
+				let k = k as usize;
+				if k >= self.subs.len() {
+					"bad".into()
+				} else if self.subs[k].sinks.is_empty() {
+					"nosink".into()
+				} else if self.subs[k].sinks.last().unwrap().is_closed() || self.subs[k].sinks.last().unwrap().capacity() > 0 {
+					self.op_send(k, p, how, &mut orc, true).await
+				} else {
+					let meth = self.subs[k].meth;
+					let held = self.subs[k].sinks.last().unwrap().clone();
+					let msg = if how.ends_with('c') { SubscriptionMessage::new(NOTIF_NAMES[meth], held.subscription_id(), &p).unwrap() } else { data_msg(p) };
+					let timed = how.starts_with('t');
+					let h = tokio::spawn(async move {
+						if timed { held.send_timeout(msg, Duration::from_secs(3600)).await.is_ok() } else { held.send(msg).await.is_ok() }
+					});
+					self.book.subs[k].clones += 1;
+					self.parked.push((k, p, h));
+					barrier().await;
+					"parked".into()
+				}
+			}
+			// `sink.closed().await`: resolves exactly when the sink reports closed
+			"waitclosed" => {
+				let Some(k) = num(2) else { return bad("bad-op") };
+				let k = k as usize;
+				if k >= self.subs.len() {
+					"bad".into()
+				} else if self.subs[k].sinks.is_empty() {
+					"nosink".into()
+				} else {
+					let closed = tokio::time::timeout(Duration::from_millis(1), self.subs[k].sinks.last().unwrap().closed()).await.is_ok();
+					let expect_closed = !self.expect_active(k);
+					if closed != expect_closed {
+						let d = if closed {
+							self.deviation(k, format!("sink.closed() of sub {} resolved although the subscription is active", self.book.subs[k].sid))
+						} else {
+							Err(format!("sink.closed() of sub {} does not resolve although the subscription is closed", self.book.subs[k].sid))
+						};
+						oracle_merge(&mut orc, d);
+					}
+					format!("closed={}", closed as u8)
+				}
+			}
+			// what the (pending) sink says about itself
+			"ident" => {
+				let Some(k) = num(2) else { return bad("bad-op") };
+				let k = k as usize;
+				if k >= self.subs.len() {
+					"bad".into()
+				} else {
+					let got = if let Some(p) = &self.subs[k].pending {
+						Some((sid_token(&p.subscription_id()), p.method_name().to_string(), p.connection_id().0))
+					} else {
+						self.subs[k].sinks.last().map(|s| (sid_token(&s.subscription_id()), s.method_name().to_string(), s.connection_id().0))
+					};
+					match got {
+						None => "nosink".into(),
+						Some((id, m, c)) => {
+							let b = &self.book.subs[k];
+							if id != b.sid || m != NOTIF_NAMES[b.meth] || c != b.conn {
+								oracle_merge(&mut orc, Err(format!("sink of sub {} on conn {} (method {}) identifies itself as id {id} method {m} conn {c}", b.sid, b.conn, NOTIF_NAMES[b.meth])));
+							}
+							format!("id={id},m={m},c={c}")
+						}
+					}
+				}
 			}
 			"clone" => {
 				let Some(k) = num(2) else { return bad("bad-op") };
@@ -1208,6 +1443,7 @@ impl CaseRun {
 		if !late.is_empty() && verb != "sub" {
 			oracle_merge(&mut orc, Err("handler invoked outside a subscribe call".into()));
 		}
+		let done = self.collect_parked(&mut orc).await;
 		let (fpart, frames) = self.frames_part(extra, &mut orc);
 		// resolve `?` results from the frames that came back
 		let mut out = out;
@@ -1258,8 +1494,9 @@ impl CaseRun {
 			}
 		}
 		let nontrivial = !matches!(out.as_str(), "bad" | "ignored" | "nosink" | "gone" | "empty" | "blocked" | "bad-op");
-		let kind = format!("{verb}.{}", out.split(':').next().unwrap_or(""));
-		LineResult { out: format!("{out};{fpart}"), oracle: orc, nontrivial, kind }
+		let kind = if verb == "ident" && out.starts_with("id=") { "ident.ok".to_string() } else { format!("{verb}.{}", out.split(':').next().unwrap_or("")) };
+		let dpart = if done.is_empty() { String::new() } else { format!(";done={}", done.join(",")) };
+		LineResult { out: format!("{out};{fpart}{dpart}"), oracle: orc, nontrivial, kind }
 	}
 }
 
@@ -1304,6 +1541,7 @@ pub struct Gen {
 	pub next_rid: u64,
 	/// fresh subscription ids (counter)
 	pub next_sid: u64,
+	pub used_consts: Vec<String>,
 	pub next_payload: u64,
 	pub next_close: u64,
 }
@@ -1347,7 +1585,7 @@ fn choose_sid(rng: &mut Rng, book: &Book, c: usize, m: usize, pf: &Profile, g: &
 }
 
 fn pick_how(rng: &mut Rng) -> &'static str {
-	*rng.pick(&["sn", "sn", "sc", "sc", "tn", "tc", "yn", "yc"])
+	*rng.pick(&["sn", "sn", "sc", "sc", "tn", "tc", "zn", "zc", "un", "uc", "yn", "yc"])
 }
 
 fn str_token(s: &str) -> String {
@@ -1368,7 +1606,16 @@ fn fresh_sid(rng: &mut Rng, pf: &Profile, g: &mut Gen) -> String {
 		5 => str_token(&format!("00{n}")),
 		6 => str_token(&format!("a{n}")),
 		7 => str_token(&format!("0x{n}")),
-		8 => str_token(*rng.pick(&["18446744073709551615", "18446744073709551616", "0", ""])),
+		8 => {
+			// boundary spellings — each at most once per case where ids must not repeat (C04)
+			let c = *rng.pick(&["18446744073709551615", "18446744073709551616", "0", ""]);
+			if pf.reuse_ids == 0 && g.used_consts.iter().any(|u| u == c) {
+				str_token(&n.to_string())
+			} else {
+				g.used_consts.push(c.to_string());
+				str_token(c)
+			}
+		}
 		9 => str_token(&format!("{n} ")),
 		10 => str_token(&format!("+{n}")),
 		_ => str_token(&format!("-{n}")),
@@ -1404,13 +1651,20 @@ pub fn gen_line(rng: &mut Rng, run: &CaseRun, g: &mut Gen, pf: &Profile) -> Stri
 		if s.pending.is_some() {
 			opts.push((pf.w_accept, format!("ss accept {k}")));
 			opts.push((pf.w_burst, format!("ss acceptsend {k} PAY {}", pick_how(rng))));
-			opts.push((2, format!("ss reject {k} {}", *rng.pick(&[-32000i32, -1, 7, -32602]))));
+			opts.push((2, format!("ss reject {k} {}", *rng.pick(&[-32000i32, -1, 7, -32602, 2, 1, -32001]))));
 			opts.push((1, format!("ss droppending {k}")));
+			opts.push((1, format!("ss ident {k}")));
 		}
 		if !s.sinks.is_empty() {
 			opts.push((pf.w_send, format!("ss send {k} PAY {}", pick_how(rng))));
 			opts.push((pf.w_burst, format!("ss burst {k} PAYN {} {}", rng.range(2, 6), pick_how(rng))));
 			opts.push((3, format!("ss clone {k}")));
+			opts.push((1, format!("ss waitclosed {k}")));
+			opts.push((1, format!("ss ident {k}")));
+			if !run.eager {
+				// leave a send blocked on the full queue (then: writer step, unsubscribe, connection close …)
+				opts.push((pf.w_send, format!("ss parksend {k} PAY {}", *rng.pick(&["sn", "sc", "tn", "tc"]))));
+			}
 			opts.push((4, format!("ss dropsink {k}")));
 			opts.push((3, format!("ss isclosed {k}")));
 		}
@@ -1507,7 +1761,8 @@ pub fn tail_lines(run: &CaseRun, g: &mut Gen) -> Vec<String> {
 		if run.book.peer_closed[c] || run.env.closed(c) {
 			continue;
 		}
-		let free = run.book.cap.saturating_sub(run.book.holding(c));
+		// (an "unlimited" cap is probed with a handful of extra subscribes, all of which must be admitted)
+		let free = run.book.cap.saturating_sub(run.book.holding(c)).min(5);
 		for _ in 0..free + 1 {
 			g.next_sid += 1;
 			v.push(format!("ss sub {c} 0 {} {}", g.rid(), g.next_sid));
@@ -1520,6 +1775,7 @@ pub fn tail_lines(run: &CaseRun, g: &mut Gen) -> Vec<String> {
 /// evaluation (distinctness of non-trivial lines is by history prefix + line, not by the line alone)
 pub fn record(out: &mut Out, ctx: &mut u64, line: String, r: LineResult) {
 	out.count(&r.kind);
+	count_axes(out, &line, &r.out);
 	if let Err(e) = &r.oracle {
 		out.count(if e.starts_with("KF ") { "oracle.known-finding" } else { "oracle.FAIL" });
 	}
@@ -1528,6 +1784,47 @@ pub fn record(out: &mut Out, ctx: &mut u64, line: String, r: LineResult) {
 		out.nontrivial.insert(*ctx);
 	}
 	out.line(line, r.out, r.oracle, false);
+}
+
+/// distribution counters of the input axes (evidence)
+fn count_axes(out: &mut Out, line: &str, res: &str) {
+	let w: Vec<&str> = line.split_whitespace().collect();
+	if w.len() < 3 || w[0] != "ss" {
+		return;
+	}
+	let head = res.split(';').next().unwrap_or("");
+	match w[1] {
+		"sub" if w.len() == 6 => {
+			out.count(&format!("axis.sub-spelling.{}", w[4].parse::<u64>().unwrap_or(0) % SUB_SPELLINGS));
+			out.count(&format!("axis.sub-method.{}", match w[3] { "0" => "register_subscription(A)", "1" => "register_subscription(B)", _ => "register_subscription_raw(C)" }));
+			let kind = match parse_sid_token(w[5]) {
+				Some(SubscriptionId::Num(_)) => "num",
+				Some(SubscriptionId::Str(s)) if s.parse::<u64>().is_ok() => "digit-string",
+				Some(SubscriptionId::Str(_)) => "other-string",
+				None => "?",
+			};
+			out.count(&format!("axis.id-kind.{kind}"));
+		}
+		"unsub" if w.len() == 6 => {
+			out.count(&format!("axis.unsub-spelling.{}", w[5].parse::<u64>().unwrap_or(0) % UNSUB_SPELLINGS));
+			out.count(&format!("axis.unsub-arg.{}", if w[4].starts_with('j') { "not-an-id" } else if w[4].starts_with('s') { "string" } else { "number" }));
+		}
+		"send" | "acceptsend" | "burst" | "parksend" => {
+			if let Some(h) = w.last() {
+				out.count(&format!("axis.send-how.{h}.{}", if head.contains("ok") { "ok" } else if head.contains("err") { "err" } else { "other" }));
+			}
+		}
+		"reject" => {
+			out.count(&format!("axis.reject-error-shape.{}", w.get(3).and_then(|c| c.parse::<i32>().ok()).map(|c| c.rem_euclid(4)).unwrap_or(9)));
+		}
+		"ret" => {
+			out.count(&format!("axis.ret.{}", w.get(3).map(|r| r.split(':').next().unwrap_or("")).unwrap_or("")));
+		}
+		_ => {}
+	}
+	if res.contains(";done=") {
+		out.count(if res.contains(":ok") { "axis.parked-send.completed-ok" } else { "axis.parked-send.failed-on-close" });
+	}
 }
 
 pub fn rt() -> tokio::runtime::Runtime {
@@ -1555,14 +1852,24 @@ pub fn run_fixed(out: &mut Out, lines: &[String], pf: &Profile) {
 }
 
 /// generate + run one case online; returns the lines (for fault-injection variants)
-pub fn run_generated(out: &mut Out, rng: &mut Rng, caseno: u64, eager: bool, nconns: usize, cap: u32, qcap: u32, nops: u64, pf: &Profile) -> Vec<String> {
-	let header = format!("case {caseno} subs mode={} cap={cap} qcap={qcap} conns={nconns}", if eager { "eager" } else { "manual" });
+/// configuration axes shared by both binaries: transport assembly, cap (0, 1, 2, 3, u32::MAX), queue
+/// capacity (1 / 2 / many on the real transports, 1..4 on the harness-owned queue)
+pub fn pick_config(rng: &mut Rng, manual_in: u64, caps: &[u32]) -> (&'static str, u32, u32) {
+	let mode = if rng.chance(1, manual_in) { "manual" } else if rng.chance(1, 4) { "lowlevel" } else { "eager" };
+	let cap = *rng.pick(caps);
+	let qcap = if mode == "manual" { rng.range(1, 4) as u32 } else { *rng.pick(&[1u32, 2, 1024, 1024]) };
+	(mode, cap, qcap)
+}
+
+#[allow(clippy::too_many_arguments)]
+pub fn run_generated(out: &mut Out, rng: &mut Rng, caseno: u64, mode: &str, nconns: usize, cap: u32, qcap: u32, nops: u64, pf: &Profile) -> Vec<String> {
+	let header = format!("case {caseno} subs mode={mode} cap={cap} qcap={qcap} conns={nconns}");
 	let mut lines = vec![header.clone()];
 	let rt = rt();
 	rt.block_on(async {
 		let mut run = CaseRun::new(&header, pf.check_c06, pf.check_c04).await.unwrap();
 		out.line(header.clone(), "case".into(), Ok(()), false);
-		let mut g = Gen { next_rid: 100, next_sid: 0, next_payload: 0, next_close: 0 };
+		let mut g = Gen { next_rid: 100, next_sid: 0, used_consts: vec![], next_payload: 0, next_close: 0 };
 		let mut ctx = fxhash(header.split_whitespace().skip(2).collect::<Vec<_>>().join(" ").as_bytes());
 		for _ in 0..nops {
 			let l = gen_line(rng, &run, &mut g, pf);
@@ -1577,7 +1884,10 @@ pub fn run_generated(out: &mut Out, rng: &mut Rng, caseno: u64, eager: bool, nco
 			lines.push(l);
 		}
 	});
-	out.count(&format!("cfg.cap{cap}.conns{nconns}.{}", if eager { "eager" } else { "manual" }));
+	out.count(&format!("cfg.mode.{mode}"));
+	out.count(&format!("cfg.cap.{cap}"));
+	out.count(&format!("cfg.qcap.{qcap}"));
+	out.count(&format!("cfg.conns.{nconns}"));
 	lines
 }
 
@@ -1655,7 +1965,7 @@ fn exhaustive_over(out: &mut Out, alphabet: &[&str], cap: u32, tail: &[&str], ma
 			continue;
 		}
 		*caseno += 1;
-		let mut g = Gen { next_rid: 100, next_sid: 0, next_payload: 0, next_close: 0 };
+		let mut g = Gen { next_rid: 100, next_sid: 0, used_consts: vec![], next_payload: 0, next_close: 0 };
 		let mut lines = vec![format!("case {caseno} subs mode=eager cap={cap} qcap=1024 conns=1")];
 		for &a in &idx {
 			lines.push(fill(alphabet[a].to_string(), &mut g));
